@@ -4,7 +4,7 @@ from collections import Counter as PyCounter
 
 from .common import Violation
 from .acceptors_r import V, close, split_steps
-from .explore_r import IndexMarket, LIMIT_ORDER, MARKET_ORDER
+from .explore_r import IndexMarket, LIMIT_ORDER, MARKET_ORDER, HighFrequencyAgent
 
 
 def tick_round(p, tick, is_buy):
@@ -102,6 +102,8 @@ def acc_C14(w):
           "accepted %s %s v%s ttl%s, expected %s %s v%s ttl%s (market price %s)" % (
               "buy" if l.is_buy else "sell", l.price, l.volume, l.ttl, "buy" if is_buy else "sell", want_price, hit["volume"], hit["lifetime"], info["mp"]))
         w.wit.inc("mistake_order_placed")
+        if isinstance(sim.id2agent[l.agent_id], HighFrequencyAgent):
+            w.wit.inc("mistake_order_replaces_hft_order")
     for sh in mshocks:
         if not sh["enabled"]:
             w.wit.inc("disabled_shock")
@@ -199,6 +201,8 @@ def acc_C16(w):
     for ri, ru in enumerate(rules):
         for name in ru["targets"]:
             rule_of.setdefault(sim.name2market[name].market_id, []).append(ri)
+    if any(len(v) > 1 for v in rule_of.values()):
+        w.wit.inc("two_rules_on_one_market")
     n_halts = [0] * len(rules)
     halted = {}  # market_id -> (since, rule index, session index)
     expected = {}  # market_id -> expected is_running
